@@ -100,6 +100,9 @@ func NewUpstreamReverseProxy(config *UpstreamConfig, signer *RequestSigner) (htt
 			for key := range securityHeaders {
 				resp.Header.Del(key)
 			}
+			// Strict-Transport-Security is set by the requireHTTPS middleware; an upstream
+			// must not be able to replace or weaken it either.
+			resp.Header.Del("Strict-Transport-Security")
 
 			return nil
 		},
